@@ -272,9 +272,19 @@ def verdict(line, impl):
     obj = int(case.entry[1][1:])
     z, t = ex[1], tol_obj(case)
     d = (vals[obj] - z) if case.entry[0] == "min" else (z - vals[obj])
-    if d > t:
-        if any(r.rel in ("lt", "gt") for r in case.rows) and ORACLE_STRICT.get(line)[0] != "opt":
+    if d > t and any(r.rel in ("lt", "gt") for r in case.rows):
+        exs = ORACLE_STRICT.get(line)
+        if exs[0] != "opt":
             return None, []      # feasible only on the boundary of a strict row: no optimum to attain (cf. the NoSolution clause)
+        # the code enforces a strict row with a margin of one step on its constant (`<` is `<= K - step`); with an INTEGER
+        # variable in such a row the margin can cost a whole unit of that variable and more than the tolerance of the
+        # objective.  The answer is held against the optimum of the model whose strict rows are demanded with that margin
+        # (ORACLE_STRICT); the permissive optimum z (strict read as non-strict) stays the bound from the other side.
+        # (false alarm of the thorough tier: -0.5*x1 < -1.5 over an integer x1 excludes x1 = 3)
+        zs = exs[1]
+        d = (vals[obj] - zs) if case.entry[0] == "min" else (zs - vals[obj])
+        z = zs
+    if d > t:
         return "objective %.9g is worse than the exact optimum %.9g by %.3g (tolerance %.3g)" % (float(vals[obj]), float(z), float(d), float(t)), []
     return None, []
 
@@ -340,6 +350,20 @@ def classify(line, impl, cls):
         # with every inequality row tightened by tol(row) + step*(1 + sum|c|) is infeasible.  (These cases used to be
         # counted under lp_root, because the unrepaired LP step answered NoSolution on them as well.)
         return "ineq_pinned_offgrid"
+    if impl.startswith("ok "):
+        # the same finding under optimisation: every point better than the answer lies in a region where some inequality rows
+        # pin a float variable closer than the margin (x1 = 3 leaves x0 the single off-grid value 5.9375), so the search can
+        # only answer from the robust part of the model.  Decided exactly: the answer is not worse than the optimum of the
+        # model with every inequality row tightened by the margin (ORACLE_ROBUST).  (Thorough tier, 1 of 30198 cases.)
+        exr = ORACLE_ROBUST.get(line)
+        st, vals, kinds, lp = fm.parse_impl(impl)
+        obj = int(case.entry[1][1:])
+        if exr[0] == "infeasible":
+            return "ineq_pinned_offgrid"
+        if exr[0] == "opt":
+            dr = (vals[obj] - exr[1]) if case.entry[0] == "min" else (exr[1] - vals[obj])
+            if dr <= tol_obj(case):
+                return "ineq_pinned_offgrid"
     return None
 
 def split_gate(model_line):
